@@ -108,9 +108,24 @@ def _node_types(expr):
   return out
 
 
+def _checker(idx):
+  """The method of _CodeValidator that checks ONE node against the permission:
+  found by what it does (it makes the `self.verify(node, <flag>, <classes>)`
+  calls), whatever it is called."""
+  cls = idx.cls('pyglove.core.coding.parsing._CodeValidator')
+  best, nbest = None, 0
+  for m in cls.methods.values():
+    k = sum(1 for c in A.calls_in(m.node) if A.call_name(c) == 'self.verify' and len(c.args) >= 3)
+    if k > nbest:
+      best, nbest = m, k
+  if best is None or nbest < 5:
+    raise AnalysisError('the per-node permission checks of _CodeValidator were not found')
+  return best
+
+
 def gate_table(ctx):
   idx = ctx.index
-  f = idx.func('pyglove.core.coding.parsing._CodeValidator.generic_visit')
+  f = _checker(idx)
   table = {}
   for c in A.calls_in(f.node):
     if A.call_name(c) == 'self.verify' and len(c.args) >= 3:
@@ -174,16 +189,38 @@ def rule_a(ctx):
 
 def rule_b(ctx):
   idx = ctx.index
-  f = idx.func('pyglove.core.coding.parsing._CodeValidator.generic_visit')
-  g = C.cfg_of(f.node)
-  sup = lambda n: any(A.call_name(c) == 'super().generic_visit' and c.args
-                      and isinstance(c.args[0], ast.Name) and c.args[0].id == f.node.args.args[1].arg
-                      for c in n.calls())
-  wit = g.can_skip(g.entry, sup)
-  ctx.ob('C19.b', f.fq, wit is None,
-         'generic_visit descends into the children of every node on every normal path',
-         f.loc, f'a path returns without super().generic_visit(node): {wit}', wit)
+  f = _checker(idx)
   cls = idx.cls('pyglove.core.coding.parsing._CodeValidator')
+  g = C.cfg_of(f.node)
+  if f.name == 'generic_visit':
+    sup = lambda n: any(A.call_name(c) == 'super().generic_visit' and c.args
+                        and isinstance(c.args[0], ast.Name) and c.args[0].id == f.node.args.args[1].arg
+                        for c in n.calls())
+    wit = g.can_skip(g.entry, sup)
+    ctx.ob('C19.b', cls.fq + '#every-node', wit is None,
+           'every node is checked: the per-node checks sit in generic_visit, which descends into the children of every '
+           'node on every normal path', f.loc, f'a path returns without super().generic_visit(node): {wit}', wit)
+  else:
+    # the per-node checks were moved out of generic_visit: whoever drives them must get
+    # the children from the interpreter's own enumeration (ast.walk / ast.iter_child_nodes /
+    # NodeVisitor.generic_visit), which knows about optional fields and lists with holes
+    drivers = [m for m in cls.methods.values() if m is not f and any(
+        A.call_name(c) == f'self.{f.name}' for c in A.calls_in(m.node))]
+    problems = []
+    if not drivers:
+      problems.append(f'nothing calls {f.name}')
+    for m in drivers:
+      lib = any((A.call_name(c) or '') in ('ast.walk', 'ast.iter_child_nodes', 'super().generic_visit', 'self.generic_visit')
+                for c in A.calls_in(m.node))
+      hand = any((A.call_name(c) or '') in ('ast.iter_fields',) for c in A.calls_in(m.node)) or any(
+          isinstance(n, ast.Attribute) and n.attr == '_fields' for n in ast.walk(m.node))
+      if hand or not lib:
+        problems.append(f'{m.name} enumerates the children of a node by hand (ast.iter_fields / _fields): a field whose '
+                        f'list starts with a hole (`{{**a, k: v}}`, keyword-only defaults) or mixes kinds is skipped '
+                        f'unvalidated')
+    ctx.ob('C19.b', cls.fq + '#every-node', not problems,
+           'every node is checked: the traversal that drives the per-node checks takes the children from the '
+           'interpreter\'s own enumeration', f.loc, '; '.join(problems))
   bad = []
   for name, m in cls.methods.items():
     if name.startswith('visit_') or name == 'visit':
@@ -393,6 +430,18 @@ def rule_e(ctx):
            f'an expression statement or handled explicitly', loc,
            f'a final {cls} statement is replaced by its `.value` expression: the '
            f'statement itself is never executed (binding/side effect lost)')
+  # the value expression of the last statement is compiled into ONE code object: using it
+  # again (e.g. as the value of the synthesized assignment) evaluates it twice
+  popped = {nm for st in ast.walk(admit) if isinstance(st, ast.Assign) and isinstance(st.value, ast.Call)
+            and isinstance(st.value.func, ast.Attribute) and st.value.func.attr == 'pop'
+            for nm in A.assigned_names(st.targets[0])}
+  uses = [n for n in ast.walk(admit) if isinstance(n, ast.Attribute) and n.attr == 'value'
+          and isinstance(n.value, ast.Name) and n.value.id in popped]
+  ctx.ob('C19.e', f'{f.fq}#last-stmt:evaluated-once', len(uses) == 1,
+         'the value expression of the last statement is evaluated exactly once (the synthesized assignment stores the '
+         'result, it does not re-evaluate the expression)', loc,
+         f'the expression is used {len(uses)} times (lines {[u.lineno for u in uses]}): `y = print(x)` prints twice, '
+         f'`b = next(it)` skips an item')
   if 'Assign' in admitted:
     forms = target_forms or ['Name', 'Attribute', 'Subscript', 'Starred', 'Tuple', 'List']
     for form in forms:
